@@ -86,6 +86,7 @@ func c10One(r *Run, snap *slog.VerifRegistry, ops []Op, kind string) {
 			r.Fail(key, desc, cc)
 		}
 	}
+	pkgLevel := 3 // Warn in a production process until the package-level SetLevel changes it
 	for i := range ops {
 		if ops[i].P >= len(t.loggers) {
 			ops[i].P = ops[i].P % len(t.loggers)
@@ -95,7 +96,10 @@ func c10One(r *Run, snap *slog.VerifRegistry, ops []Op, kind string) {
 		for j := range t.loggers {
 			before[j] = obsKey(t.Observe(j))
 		}
-		defLevelBefore := int(slog.GetLevel())
+		defLevelBefore := pkgLevel // the package default level per the history (not read back from the implementation)
+		if g := int(slog.GetLevel()); g != pkgLevel {
+			fail("C10/pkg-level", fmt.Sprintf("GetLevel() reports %d, the package default level set by the history is %d", g, pkgLevel))
+		}
 		nBefore := len(t.loggers)
 		ret := t.Exec(o)
 		c.Rets = append(c.Rets, ret)
@@ -200,6 +204,7 @@ func c10One(r *Run, snap *slog.VerifRegistry, ops []Op, kind string) {
 			mayChange[o.P] = true
 		case "OPkgSetLevel":
 			mayChange[0] = true
+			pkgLevel = o.N
 		}
 		if len(parent) != len(t.loggers) {
 			// keep the oracle's history aligned even after a failure
